@@ -163,6 +163,24 @@ def _prog_body(case):
                              json.dumps(prog), ["composition"])
     if out.status != "ok":
         return out
+    # the public HVP wrappers with a non-default argnum / extra arguments must give the same H u as make_vjp(grad)
+    try:
+        u = values.direction(vseed, x0.shape, 51)
+        Hu = onp.asarray(autograd.make_vjp(autograd.grad(phi_ag))(x0)[0](u))
+        two = lambda k, x, scale=1.0: scale * (phi_ag(x) * k + anp.sum(x * x) * k * k)
+        w1 = onp.asarray(autograd.hessian_vector_product(two, 1)(1.5, x0, u, scale=2.0))
+        w2 = onp.asarray(autograd.make_hvp(two, 1)(1.5, x0, scale=2.0)[0](u))
+        w3 = onp.tensordot(onp.asarray(autograd.hessian(two, 1)(1.5, x0, scale=2.0)), u, u.ndim)
+        want = 2.0 * (1.5 * Hu + 2.0 * 1.5 * 1.5 * u)
+        for nm, w in (("hessian_vector_product(argnum=1)", w1), ("make_hvp(argnum=1)", w2), ("hessian(argnum=1)", w3)):
+            if w.shape != want.shape or not onp.allclose(w, want, rtol=1e-9, atol=1e-10 * max(1.0, float(onp.max(onp.abs(want))))):
+                return fail("wrong_value", f"{nm} disagrees with make_vjp(grad): shape {w.shape} vs {want.shape}", "C07|program|hvp_wrapper", sample=sample)
+    except Exception as e:
+        from ..case import describe_exc, from_autograd
+
+        if not from_autograd(e):
+            raise
+        return fail("unexpected_exception", "HVP wrappers: " + describe_exc(e), "C07|program|hvp_wrapper_exception", sample=sample)
     # full hessian symmetry for small inputs
     if x0.size <= 8:
         try:
